@@ -145,8 +145,9 @@ class UTPM(Ring, RawAlgorithmsMixIn):
         else:
             if not isinstance(sl, tuple):
                 sl = (sl,)
-            self.data.__setitem__((slice(1,None),slice(None)) + sl, 0)
-            return self.data.__setitem__((0,slice(None)) + sl, rhs)
+            # write the constant first: rhs may be a view of a higher coefficient of self
+            self.data.__setitem__((0,slice(None)) + sl, rhs)
+            return self.data.__setitem__((slice(1,None),slice(None)) + sl, 0)
 
 
     @property
